@@ -28,6 +28,13 @@ C01 driver: the *verdict* of each partitioner model on the op of the harness
   contract (`skip outside-contract`), a weight that is not an exact integer, a k-way Kk
   input too large for the list-based model, a missing `=> aux` part.
 
+A line may start with `reuse-twice` / `reuse-buf` (history cases of the harness: the same
+algorithm value called twice, an id array reused after a run with more parts): the models are
+pure functions of their input, so the prediction is that of the plain op.  Above
+`modelMaxN` elements (21 000; 9 000 for the models built on insertion sorts; 3 000 for the
+Ckk search, which recurses once per element) the driver answers `skip large-n (oracle only)`
+from the header tokens alone, before parsing the data.
+
 A line is `<op> => <aux…>`: `<op>` is the input the harness ran (public API), `aux` the
 float-derived data the harness read from the implementation through the `coupe::verif`
 hooks, which the models of C03/C09 take as a parameter: the rotated points for Rib
@@ -44,6 +51,18 @@ model is run once per pool size, the others once.
 
 namespace Coupe.Driver.C01
 open Coupe.Driver
+
+/-- Tail-recursive `takeParsed` (lines of the large stream carry several 10^5 tokens). -/
+def takeParsedGo {α} (f : String → Option α) : Nat → List String → Array α → Option (List α × List String)
+  | 0, rest, acc => some (acc.toList, rest)
+  | _ + 1, [], _ => none
+  | n + 1, t :: ts, acc =>
+    match f t with
+    | none => none
+    | some x => takeParsedGo f n ts (acc.push x)
+
+def takeParsed {α} (f : String → Option α) (n : Nat) (rest : List String) : Option (List α × List String) :=
+  takeParsedGo f n rest #[]
 
 /-- `usize::MAX`, the pre-fill of the harness. -/
 def unwritten : Nat := 2 ^ 64 - 1
@@ -397,7 +416,7 @@ def handleMj (dim : Nat) (rest : List String) : String :=
         | some h => verdictOfIds n parts (Coupe.MultiJagged.assign id h.leaves (fresh n))
   | _ => "bad-op"
 
-def handle (toks : List String) : String :=
+def handleOp (toks : List String) : String :=
   let (pre, aux) := splitArrow toks
   match pre with
   | algo :: ts :: rest =>
@@ -422,6 +441,36 @@ def handle (toks : List String) : String :=
       | "grid3" => handleGrid 3 ts rest
       | "random" => handleRandom rest
       | _ => "bad-op"
+  | _ => "bad-op"
+
+/-- Number of elements of an op, read off its header tokens (no data token is parsed). -/
+def elementCount (algo : String) (rest : List String) : Option Nat :=
+  let nat (i : Nat) : Option Nat := (rest[i]?).bind parseNat?
+  match algo with
+  | "rcb2" | "rcb3" | "rib2" | "rib3" => nat 3
+  | "hilbert2" | "hilbert3" | "zcurve2" | "zcurve3" | "mj2" | "mj3" | "greedy" => nat 2
+  | "kk" | "ckk" | "random" => nat 1
+  | "grid2" => do pure ((← nat 0) * (← nat 1))
+  | "grid3" => do pure ((← nat 0) * (← nat 1) * (← nat 2))
+  | _ => none
+
+/-- Largest input the model of `algo` is run on (see the module doc). -/
+def modelMaxN (algo : String) : Nat :=
+  match algo with
+  | "greedy" | "mj2" | "mj3" | "zcurve2" | "zcurve3" => 9000
+  | "ckk" => 3000
+  | _ => 21000
+
+def handle (toks : List String) : String :=
+  let toks := match toks with
+    | "reuse-twice" :: r => r
+    | "reuse-buf" :: r => r
+    | _ => toks
+  match toks with
+  | algo :: _ :: hdr =>
+    match elementCount algo hdr with
+    | some n => if n > modelMaxN algo then "skip large-n (oracle only)" else handleOp toks
+    | none => handleOp toks
   | _ => "bad-op"
 
 end Coupe.Driver.C01
